@@ -478,7 +478,7 @@ theorem natProd_pos_all (ns : List Nat) (h : 0 < natProd ns) : ∀ n ∈ ns, 0 <
   | nil => simp
   | cons a as ih =>
     simp only [natProd] at h
-    have ha : 0 < a := Nat.pos_of_mul_pos' (by omega : 0 < a * natProd as) |>.1 |> fun _ => by
+    have ha : 0 < a := by
       rcases Nat.eq_zero_or_pos a with h0 | h0
       · subst h0; simp at h
       · exact h0
@@ -518,6 +518,7 @@ theorem bcastIdx_self (s : List Nat) : bcastIdx s s = List.range (natProd s) := 
       omega
     · rfl
   simp only [id]
+  unfold tab at this
   rw [this]
   exact flatC_unflatC s k hpos hk'
 
@@ -530,7 +531,7 @@ theorem map_getD_range {α : Type} (v : List α) (d : α) : (List.range v.length
 namespace DBuf
 
 theorem gather_range (b : DBuf) : b.gather (List.range b.length) = b := by
-  cases b <;> simp [gather, length, map_getD_range]
+  cases b <;> simp only [gather, length] <;> rw [map_getD_range]
 
 theorem upcast_length (b : DBuf) : b.upcast.length = b.length := by
   cases b <;> simp [upcast, length]
@@ -555,16 +556,18 @@ end DBuf
 theorem asArray_shaped (d : DArr) (n : List Nat) (nvdim : Nat) (hs : d.shape = n ++ [nvdim])
     (hl : d.buf.length = natProd (n ++ [nvdim])) :
     asArray d n nvdim = .ok { shape := n ++ [nvdim], buf := d.buf.upcast } := by
+  obtain ⟨shape, buf⟩ := d
+  simp only at hs hl
+  subst hs
   unfold asArray
-  have h1 : ¬ (nvdim = 1 ∧ d.shape = n) := by
+  have h1 : ¬ (nvdim = 1 ∧ n ++ [nvdim] = n) := by
     rintro ⟨_, h⟩
-    rw [hs] at h
     have := congrArg List.length h
     simp at this
-  have h2 : ¬ d.shape.getLast? ≠ some nvdim := by
-    rw [hs, List.getLast?_concat]
+  have h2 : ¬ (n ++ [nvdim]).getLast? ≠ some nvdim := by
+    rw [List.getLast?_concat]
     simp
-  simp only [h1, h2, if_false, hs, bcastOk_self, Bool.not_true, Bool.false_eq_true, bcastIdx_self]
+  simp only [h1, h2, if_false, bcastOk_self, Bool.not_true, Bool.false_eq_true, bcastIdx_self]
   rw [← hl, DBuf.gather_range]
 
 theorem asValid_shaped (v : VArr) (n : List Nat) (hs : v.shape = n) :
